@@ -30,11 +30,30 @@ type VerifEntry[V any] struct {
 func (c *Cache[V]) VerifDump() []VerifEntry[V] {
 	var out []VerifEntry[V]
 	c.m.ForEach(func(k string, v cacheEntry[V]) bool {
-		out = append(out, VerifEntry[V]{k, v.val, v.exp})
+		out = append(out, VerifEntry[V]{k, v.val, verifExp(v.exp)})
 		return true
 	})
 	sort.Slice(out, func(i, j int) bool { return out[i].Key < out[j].Key })
 	return out
+}
+
+// verifExp reads the stored expiry whatever representation the entry uses.
+func verifExp(x any) time.Time {
+	switch t := x.(type) {
+	case time.Time:
+		return t
+	case int64: // seconds
+		return time.Unix(t, 0)
+	case time.Duration:
+		return time.Unix(0, int64(t))
+	}
+	return time.Time{}
+}
+
+// VerifMapGet is the raw map lookup Get starts with (no expiry check).
+func (c *Cache[V]) VerifMapGet(key string) (val V, exp time.Time, ok bool) {
+	e, ok := c.m.Get(key)
+	return e.val, verifExp(e.exp), ok
 }
 
 // VerifLen is haxmap's own Len().
